@@ -18,6 +18,7 @@ package rapid
 //         use the position itself as the token), so gbegin is a fixed function of one run.
 
 //@ ghost drawn Int
+//@ ghost lastWord (_ BitVec 64)
 //@ ghost gbegin (Array (_ BitVec 64) Int)
 
 // ---------------------------------------------------------------------------------------------
@@ -28,9 +29,9 @@ package rapid
 //@   params s, n
 //@   requires [C03] n >= 0
 //@   ensures implies(n <= 64, result <= mask(n))
-//@   ensures drawn == old(drawn) + 1
+//@   ensures drawn == old(drawn) + 1 && lastWord == result
 //@   panics invalidData: drawn == old(drawn)
-//@   modifies drawn
+//@   modifies drawn, lastWord
 
 //@ func bitStream.beginGroup
 //@   params s, label, standalone
@@ -52,9 +53,10 @@ package rapid
 
 //@ func genFloat01
 //@   ensures [C03] 0 <= result && result < 1
+//@   ensures [C04,C12] result == float64(lastWord) * 0x1.0p-53 && lastWord <= mask(53)
 //@   ensures drawn == old(drawn) + 1
 //@   panics invalidData: drawn == old(drawn)
-//@   modifies drawn
+//@   modifies drawn, lastWord
 
 //@ func genGeom
 //@   requires [C03] p > 0 && p <= 1
@@ -118,9 +120,10 @@ package rapid
 //@ func flipBiasedCoin
 //@   requires [C03] p >= 0 && p <= 1
 //@   ensures [C03] implies(p == 0, !result) && implies(p == 1, result)
+//@   ensures [C04,C12] result == (float64(lastWord) * 0x1.0p-53 >= 1 - p) && lastWord <= mask(53)
 //@   ensures drawn == old(drawn) + 1
 //@   panics invalidData: drawn == old(drawn)
-//@   modifies drawn
+//@   modifies drawn, lastWord
 
 // ---------------------------------------------------------------------------------------------
 // floats.go
@@ -180,14 +183,19 @@ package rapid
 //@   requires [C03] r.avgCount >= 0 && r.avgCount <= 1<<62
 //@   ensures [C03] result >= 0
 
+// The decision of more() is a function of the recorded coin word and of what a replay of the pruned recording
+// can see (count and the three parameters) - not of rejected/rejections/forceStop, which a replay lacks.
+//@ define pContOf(count, min, max, pc) = ite(count < min, 1.0, ite(count >= max, 0.0, pc))
+
 //@ func (*repeat).more
 //@   requires [C03] repeatInv(r) && groupUsed(r)
+//@   ensures [C04,C12] implies(r.pContinue < 1, result == (float64(lastWord) * 0x1.0p-53 >= 1 - pContOf(old(r.count), r.minCount, r.maxCount, r.pContinue)))
 //@   ensures [C03] repeatInv(r) && groupUsed(r)
 //@   ensures [C03,C08] implies(result, r.count == old(r.count) + 1 && old(r.count) < r.maxCount && r.group >= 0)
 //@   ensures [C03,C08] implies(!result, r.count == old(r.count) && r.count >= r.minCount)
 //@   ensures drawn > old(drawn)
 //@   panics invalidData: drawn >= old(drawn)
-//@   modifies r.group, r.rejected, r.count, drawn
+//@   modifies r.group, r.rejected, r.count, drawn, lastWord
 
 //@ func (*repeat).reject
 //@   requires [C03] repeatInv(r) && r.count > 0
